@@ -363,7 +363,7 @@ func (sc *SC) lacksAttrs(as *armState, arm string, l0Atoms, anaAtoms []int) *pa.
 	}
 	var post []int
 	anaFn := sc.c.P.Func(load.ModPath, "(*Policy).allowNoAttrs")
-	for b := range sc.S.Arms[arm].Blocks {
+	for _, b := range sortedBlocks(sc.S.Arms[arm].Blocks) {
 		for _, in := range b.Instrs {
 			call, ok := in.(*ssa.Call)
 			if !ok || anaFn == nil || call.Common().StaticCallee() != anaFn {
